@@ -61,6 +61,10 @@ USES = [
     ("weak_neg", ":~ {SH}. [-L@1,D]"),
     ("min_unify", "#minimize {{ L@1,D : {SH} }}. #minimize {{ 1@1,D : day(D) }}."),
     ("min_other_prio", "#minimize {{ L@1,D : {SH} }}. #minimize {{ 1@2,D : day(D) }}."),
+    ("min_same_tuple", "#minimize {{ L@1,D : {SH} ; L@1,D : ps(D,L), L > 1 }}."),
+    ("weak_same_tuple", ":~ {SH}. [L@1,D]\n:~ ps(D,L), L > 1. [L@1,D]"),
+    ("weak_same_tuple_rev", ":~ ps(D,L), L > 1. [L@1,D]\n:~ {SH}. [L@1,D]"),
+    ("weak_unify_othervars", ":~ {SH}. [L@1,D]\n:~ ps(E,M), M > 1. [M@1,E]"),
     ("weak_notuple", ":~ {SH}. [L@1]"),
     ("weak_extra", ":~ {SH}, day(D). [L@2,D]"),
     ("weak_anon", ":~ {SHA}. [L@1]"),
